@@ -136,6 +136,28 @@ def step (d : DState) (opLine : String) (impl : String) : DState × StepOut :=
         let st' := PdModel.TsoGlobal.step d.proto (if a = 0 then .globalAdvance t else .localAdvance a t)
         ({ d with proto := st' }, { model := s!"ok | {viewStr st'}" })
       else (d, { model := s!"rejected | {viewStr d.proto}" })
+    | ["bigreq", _, cnt] =>
+      -- large sequential requests: judged by the monitor only (like a burst)
+      let parts := impl.splitOn " | "
+      let gs := ((words (parts.headD "")).drop 1).filterMap parseGrant
+      let t := parseTable ("[" ++ (parts.getLast?.getD "") ++ "]")
+      let minT := gs.foldl (fun m (p : C05.Ev × Nat) => min m p.1.start) (gs.headD (⟨0, 0, 0, 0, 0⟩, 0)).1.start
+      let maxT := gs.foldl (fun m (p : C05.Ev × Nat) => max m p.1.finish) 0
+      let base := d.mon.idx + 1
+      let evs := d.mon.evs ++ gs.map (fun (p : C05.Ev × Nat) =>
+        { p.1 with start := base + (p.1.start - minT), finish := base + (p.1.finish - minT) })
+      let c := natArg cnt
+      let gevs := d.mon.gevs ++ (gs.filter (fun (p : C05.Ev × Nat) => p.1.alloc = 0)).map (fun (p : C05.Ev × Nat) =>
+        let raw := p.1.logical / 2 ^ p.2
+        (⟨base + (p.1.start - minT), base + (p.1.finish - minT), p.1.ms, raw - c, raw⟩ : C01.Ev))
+      let fails :=
+        (if gs.all (fun (p : C05.Ev × Nat) => decide (p.1.logical < 2 ^ 18)) then [] else
+          [s!"sig=C01.global-or-local-logical-out-of-range count={c}"]) ++
+        (if C01.check 18 gevs then [] else [s!"sig=C01.global-timestamps-not-unique-increasing-bigreq"]) ++
+        (if C05.check evs then [] else [s!"sig=C05.order-or-uniqueness-bigreq"]) ++
+        (if gs.all (fun (p : C05.Ev × Nat) => decide (C05.carriesSuffix p.2 t p.1)) then [] else
+          [s!"sig=C05.wrong-suffix-bigreq"])
+      ({ d with mon := { d.mon with evs := evs, gevs := gevs, idx := base + (maxT - minT) + 1 } }, { model := impl, fails := fails })
     | "burst" :: _ :: _ :: cnt :: _ =>
       -- concurrent requests: judged by the monitor only
       let parts := impl.splitOn " | "
